@@ -1225,6 +1225,8 @@ def _evaluated_first(e: ast.AST) -> List[ast.AST]:
         for c in ast.iter_child_nodes(e):
             if isinstance(c, ast.expr):
                 out += _evaluated_first(c)
+            elif isinstance(c, ast.keyword):
+                out += _evaluated_first(c.value)
     return out
 
 
